@@ -2,5 +2,5 @@
 namespace EaselModel.Stats
 /-- does `esl_gumbel_FitComplete()` evaluate the first bracketing test of its bisection fallback at `right` (as `FitCensored` does)
     or at the lambda left over by Newton/Raphson? (read off the source: `lawless416(x, n, right|lambda, &fx, &dfx)` before `while (fx > 0.)`) -/
-def fitCompleteBracketsAtRight : Bool := false
+def fitCompleteBracketsAtRight : Bool := true
 end EaselModel.Stats
